@@ -331,3 +331,22 @@ Proof.
   change (mat_asformat Kinship G) with (scale_mat (1 # 2) G).
   apply (inverse_scaled (1 # 2) 2 G H (length G)); [reflexivity | exact HI].
 Qed.
+
+(** min_inbreeding of a relationship matrix produced by the estimators: whenever the (checked) inverse exists and
+    1'H1 > 0, the value is the minimum of x'Gx over the simplex-sum constraint, and it is attained *)
+Theorem min_inbreeding_of_estimator c pl m X G H : rows_len m X -> admissible c pl X ->
+  from_gmat c pl m X = ROk G -> inv_checked G = Some H -> 0 < sumQ (concat H) ->
+  min_inbreeding Coancestry G = Some (min_inbreeding_of Coancestry H) /\
+  min_inbreeding Kinship G = Some (min_inbreeding_of Kinship H) /\
+  (forall x, length x = length G -> sumQ x == 1 -> min_inbreeding_of Coancestry H <= qform x G) /\
+  (exists x, length x = length G /\ sumQ x == 1 /\ qform x G == min_inbreeding_of Coancestry H) /\
+  min_inbreeding_of Kinship H == (1 # 2) * min_inbreeding_of Coancestry H.
+Proof.
+  intros HX Ha E EI Hs. pose proof (from_gmat_is_gram c pl m X G HX Ha E) as IG.
+  destruct (inv_checked_sound G H EI) as (GHI & _ & LH & RH).
+  split; [unfold min_inbreeding; rewrite EI; reflexivity|]. split; [unfold min_inbreeding; rewrite EI; reflexivity|].
+  apply (min_inbreeding_optimal G H); try assumption.
+  - apply is_gram_length, IG.
+  - intros i j. apply is_gram_sym, IG.
+  - intros y _. apply is_gram_psd, IG.
+Qed.
